@@ -322,6 +322,7 @@ func (e *evilBLS) KeyGen(ctx context.Context) ([]byte, error) {
 // tamperPS is a PS participant that follows the protocol (a real ps.TPS) except that it alters what it sends: one component of
 // the share dealt to each victim is moved off the polynomial.
 type tamperPS struct {
+	stash []byte
 	inner tss.KeyGenerator
 	plan  *byzPlan
 }
@@ -363,6 +364,23 @@ func (t *tamperPS) Init(parties []uint16, threshold int, sendMsg func(msg []byte
 				if b, err := asn1.Marshal(x); err == nil {
 					msg = append([]byte{1}, b...)
 				}
+			}
+		}
+		// commitments must be binding: first-value-wins.  The participant first broadcasts an EMPTY commitment, and commits for real only
+		// together with (just before) its reveal, i.e. after it has seen the keys of everybody else
+		if t.plan.Strategy == "ps-empty-commit-then-real" || t.plan.Strategy == "ps-garbage-commit-then-real" {
+			if len(msg) > 1 && msg[0] == 2 && isBroadcast {
+				t.stash = append([]byte(nil), msg...)
+				if t.plan.Strategy == "ps-empty-commit-then-real" {
+					sendMsg([]byte{2}, true, to)
+				} else {
+					sendMsg(append([]byte{2}, make([]byte, 32)...), true, to)
+				}
+				return
+			}
+			if len(msg) > 1 && msg[0] == 3 && isBroadcast && t.stash != nil {
+				sendMsg(t.stash, true, to)
+				t.stash = nil
 			}
 		}
 		sendMsg(msg, isBroadcast, to)
